@@ -9,6 +9,7 @@ import (
 	"strings"
 
 	"github.com/hedzr/is"
+	"github.com/hedzr/is/term/color"
 	"github.com/hedzr/logg/slog"
 
 	"verifharness/gen"
@@ -289,6 +290,12 @@ func c02main(c *Ctx) {
 			}
 			name = "kid"
 		}
+		// registered context keys (with a context that carries one of them, none of them, or is nil)
+		ctxKeys := r.P(25)
+		if ctxKeys {
+			lg.SetContextKeys("rid", ctxKeyT{"uid"})
+			c.R.Add("calls_on_a_logger_with_context_keys", 1)
+		}
 		vb := gen.Pick(r, verbs)
 		sev := vb.sev
 		if vb.any {
@@ -322,11 +329,21 @@ func c02main(c *Ctx) {
 		}
 		args, adesc = c02args(r, 12)
 		ctx := context.Background()
-		if r.P(10) {
+		if ctxKeys && r.Bool() {
+			ctx = context.WithValue(ctx, "rid", "r-"+fmt.Sprint(idx)) //nolint:staticcheck // string keys are what the library documents
+		}
+		if r.P(10) || (ctxKeys && r.P(30)) {
 			ctx = nil
 		}
+		// the colours of the severity may have been set by the application, "no colour" included
+		if r.P(8) {
+			fg := gen.Pick(r, []color.Color{color.NoColor, color.FgRed, color.FgDefault})
+			bg := gen.Pick(r, []color.Color{color.NoColor, color.BgBlue, color.BgUnderline})
+			slog.SetLevelColors(sev, fg, bg)
+			c.R.Add("calls_after_SetLevelColors_for_the_severity", 1)
+		}
 		desc := map[string]any{"format": f.String(), "logger_level": L.String(), "entry": vb.name, "mode": mode, "severity": int(sev), "msg": q(clip(msg, 200)), "nargs": len(args), "args": adesc,
-			"normal": d.normal, "error": d.errs, "failing_writer": failing, "per_level": fmt.Sprint(d.perLevel), "flags": int64(slog.GetFlags()), "child": name == "kid", "nil_ctx": ctx == nil}
+			"normal": d.normal, "error": d.errs, "failing_writer": failing, "per_level": fmt.Sprint(d.perLevel), "flags": int64(slog.GetFlags()), "child": name == "kid", "nil_ctx": ctx == nil, "context_keys": ctxKeys}
 		c.R.JournalNote(fmt.Sprintf("%v", desc))
 		log.Reset()
 		pkgCall := false
